@@ -49,6 +49,7 @@ type vChain struct {
 	names              map[ids.ID]string
 	counter            int
 	strictParent       bool
+	allowReverify      bool // after a state-sync hand-over processing blocks are executed again
 	lastAcceptedHeight uint64
 }
 
@@ -103,7 +104,7 @@ func (c *vChain) VerifyBlock(_ context.Context, parent *TestBlock, blk *TestBloc
 	if blk.Invalid {
 		return nil, errVerifyInvalidBlock
 	}
-	if blk.outputPopulated {
+	if blk.outputPopulated && !c.allowReverify {
 		c.fail("VerifyBlock(%s): the block was already executed", c.name(blk.GetID()))
 	}
 	blk.outputPopulated = true
@@ -155,24 +156,28 @@ type mBlock struct {
 	built    bool
 	verified bool // the engine's Verify call returned nil
 	vacuous  bool // verified while the VM was not ready (state sync)
+	preReady bool // accepted while the VM was not ready
+	queued   bool // accepted in normal operation (handed to the async accepter)
+	drained  bool // a drain event happened after it was queued
 }
 
 type vEngine struct {
-	t          *testing.T
-	chain      *vChain
-	vm         *SnowVM[*TestBlock, *TestBlock, *TestBlock]
-	blocks     []*mBlock // blocks[0] = genesis
-	lastAcc    int
-	pref       int
-	notifV     []ids.ID
-	notifA     []ids.ID
-	notifR     []ids.ID
-	notifPreA  []ids.ID
-	notifPreR  []ids.ID
-	nmu        sync.Mutex
-	syncing    bool
-	finished   bool
-	syncTarget int
+	t            *testing.T
+	chain        *vChain
+	vm           *SnowVM[*TestBlock, *TestBlock, *TestBlock]
+	blocks       []*mBlock // blocks[0] = genesis
+	lastAcc      int
+	pref         int
+	notifV       []ids.ID
+	notifA       []ids.ID
+	notifR       []ids.ID
+	notifPreA    []ids.ID
+	notifPreR    []ids.ID
+	nmu          sync.Mutex
+	syncing      bool
+	finished     bool
+	syncTarget   int
+	finishTarget int
 }
 
 func newEngine(t *testing.T, cacheSize int) *vEngine {
@@ -339,6 +344,11 @@ func (e *vEngine) apply(o c20Op) (string, string) {
 		}
 		m.status = 1
 		e.lastAcc = m.num
+		if e.syncing && !e.finished {
+			m.preReady = true
+		} else {
+			m.queued = true
+		}
 		// reject every processing block that does not descend from the accepted one
 		var rej []int
 		for i := range e.blocks {
@@ -358,6 +368,11 @@ func (e *vEngine) apply(o c20Op) (string, string) {
 		}
 	case "drain":
 		e.vm.acceptedQueueBlocksProcessedWg.Wait()
+		for _, m := range e.blocks {
+			if m.queued {
+				m.drained = true
+			}
+		}
 	case "startsync":
 		// state sync starts from the current tip as target (blocks accepted later move the tip)
 		tgt := e.blocks[e.lastAcc]
@@ -369,12 +384,21 @@ func (e *vEngine) apply(o c20Op) (string, string) {
 		tgt := e.blocks[o.a]
 		e.vm.snowCtx.Lock.Lock()
 		tgt.tb.outputPopulated, tgt.tb.acceptedPopulated = true, true
+		e.chain.mu.Lock()
+		e.chain.lastAcceptedHeight = tgt.tb.GetHeight()
+		e.chain.allowReverify = true
+		e.chain.verifyLog, e.chain.acceptLog = nil, nil
+		e.chain.mu.Unlock()
+		e.nmu.Lock()
+		e.notifV, e.notifA = nil, nil
+		e.nmu.Unlock()
 		err := e.vm.FinishStateSync(ctx, tgt.tb, tgt.tb, tgt.tb)
 		e.vm.snowCtx.Lock.Unlock()
 		if err != nil {
 			return "finish-sync-fails", err.Error()
 		}
 		e.finished = true
+		e.finishTarget = o.a
 	}
 	return "", ""
 }
@@ -491,17 +515,103 @@ func (e *vEngine) final() (string, string) {
 	return "", ""
 }
 
+// validAncestry reports whether block i and all its ancestors above the last accepted block
+// are valid blocks (so that re-verification after state sync must succeed for it).
+func (e *vEngine) validAncestry(i int) bool {
+	for x := i; x >= 0 && e.blocks[x].status != 1; x = e.blocks[x].parent {
+		if e.blocks[x].invalid {
+			return false
+		}
+	}
+	return true
+}
+
+// syncOracle is the C21 oracle, evaluated after every event once state sync has started.
+func (e *vEngine) syncOracle() (string, string) {
+	ctx := context.Background()
+	_, herr := e.vm.HealthCheck(ctx)
+	if !e.finished {
+		if herr == nil {
+			return "healthy-during-state-sync", "HealthCheck reports healthy while the VM is not ready"
+		}
+		return "", ""
+	}
+	e.chain.mu.Lock()
+	defer e.chain.mu.Unlock()
+	if len(e.chain.violation) > 0 {
+		return "chain-contract", e.chain.violation[0]
+	}
+	// (1) last accepted state = executed chain up to the tip
+	la, err := e.vm.GetConsensusIndex().GetLastAccepted(ctx)
+	tipModel := e.blocks[e.lastAcc]
+	if err != nil || la == nil || la.GetID() != tipModel.sb.ID() {
+		// blocks accepted after the hand-over are processed asynchronously: compare after a drain only
+		pending := false
+		for _, m := range e.blocks {
+			if m.queued && !m.drained {
+				pending = true
+			}
+		}
+		if !pending {
+			return "last-accepted-state-wrong", fmt.Sprintf("ConsensusIndex.GetLastAccepted = %v,%v; the engine's tip is b%d", la, err, e.lastAcc)
+		}
+	}
+	// (2) every still-processing block was re-verified iff its ancestry is valid; (3) health
+	unresolved := 0
+	for i, m := range e.blocks {
+		if m.status != 0 || !m.verified {
+			continue
+		}
+		want := e.validAncestry(i)
+		if m.sb.verified != want {
+			return "processing-block-reverification", fmt.Sprintf("processing b%d (invalid=%v, valid ancestry=%v) has verified=%v after the hand-over", m.num, m.invalid, want, m.sb.verified)
+		}
+		if !want {
+			unresolved++
+		}
+	}
+	if (unresolved > 0) != (herr != nil) {
+		return "health-check-wrong", fmt.Sprintf("%d processing block(s) failed re-verification and are not yet rejected, HealthCheck error = %v", unresolved, herr)
+	}
+	return "", ""
+}
+
+// reprocessOracle checks, right after finish, that exactly the blocks between the sync target and the
+// tip were executed and accepted once each, in height order.
+func (e *vEngine) reprocessOracle() (string, string) {
+	e.chain.mu.Lock()
+	defer e.chain.mu.Unlock()
+	var want []uint64
+	for h := e.blocks[e.finishTarget].tb.GetHeight() + 1; h <= e.blocks[e.lastAcc].tb.GetHeight(); h++ {
+		want = append(want, h)
+	}
+	if len(e.chain.acceptLog) != len(want) {
+		return "reprocess-accept-count", fmt.Sprintf("finishing at b%d with tip b%d: %d AcceptBlock calls, expected %d", e.finishTarget, e.lastAcc, len(e.chain.acceptLog), len(want))
+	}
+	// processing blocks with valid ancestry are verified exactly once, plus one verify per reprocessed block
+	wantVerify := len(want)
+	for i, m := range e.blocks {
+		if m.status == 0 && m.verified && e.validAncestry(i) {
+			wantVerify++
+		}
+	}
+	if len(e.chain.verifyLog) != wantVerify {
+		return "reverify-count", fmt.Sprintf("finishing at b%d with tip b%d: %d successful VerifyBlock calls, expected %d (reprocessed blocks + processing blocks with valid ancestry)", e.finishTarget, e.lastAcc, len(e.chain.verifyLog), wantVerify)
+	}
+	return "", ""
+}
+
 func (e *vEngine) enabled(maxBlocks int, sync bool) []int {
 	var en []int
 	n := len(e.blocks) - 1
 	lag := 0
 	for _, m := range e.blocks {
-		if m.status == 1 && !m.tb.acceptedPopulated {
+		if m.queued && !m.drained {
 			lag++
 		}
 	}
 	if n < maxBlocks {
-		if !(e.syncing && !e.finished) { // the builder needs a verified preference
+		if !(e.syncing && !e.finished) && e.blocks[e.pref].sb.verified { // the builder needs a verified preference
 			en = append(en, encOp(c20Op{kind: "build"}))
 		}
 		for i, m := range e.blocks {
@@ -517,7 +627,7 @@ func (e *vEngine) enabled(maxBlocks int, sync bool) []int {
 			if i != e.pref {
 				en = append(en, encOp(c20Op{kind: "pref", a: i}))
 			}
-			if m.parent == e.lastAcc && lag < 3 {
+			if m.parent == e.lastAcc && lag < 3 && !m.invalid && (!e.finished || m.sb.verified) {
 				en = append(en, encOp(c20Op{kind: "accept", a: i}))
 			}
 		}
@@ -561,6 +671,14 @@ func c20Run(t *testing.T, h []int, cache int) (*vEngine, string, string) {
 		k, w := e.apply(decOp(x))
 		if k == "" {
 			k, w = e.lookups()
+		}
+		if k == "" && e.syncing {
+			if decOp(x).kind == "finish" {
+				k, w = e.reprocessOracle()
+			}
+			if k == "" {
+				k, w = e.syncOracle()
+			}
 		}
 		if k != "" {
 			return e, k, fmt.Sprintf("after %v (step %d): %s", c20Hist(h[:i+1]), i, w)
@@ -626,6 +744,49 @@ func TestVerifC20(t *testing.T) {
 	r.Cov["bounds"] = map[string]any{"depth": depth, "max_new_blocks": maxBlocks, "accepted_block_cache": []int{128, 2}, "max_accept_lag": 3}
 	r.Cov["explanation"] = "every transition runs a fresh real snow.VM (history replayed) driven by a deterministic model of the snowman engine; the Chain implementation checks the lifecycle contract of every callback; lookups are compared with the model after every event and the notification logs after the final drain; state key = model state (block tree, statuses, preference, processed flags)"
 	r.Assumptions = []string{"engine calls consistent with snowman: verify only children of verified/accepted blocks, accept only children of the last accepted block, reject the rest transitively", "at most 3 accepted blocks waiting for the async accepter", "block ids are deterministic"}
+	r.Finish()
+}
+
+func TestVerifC21(t *testing.T) {
+	r := evid.Start("C21", "model_checking")
+	c20Dir = t.TempDir()
+	maxBlocks := evid.Pick(r, 4, 5)
+	depth := evid.Pick(r, 7, 9)
+	states, trans := 0, 0
+	exec := func(h []int) (res seqx.Result) {
+		defer func() {
+			if p := recover(); p != nil {
+				res = seqx.Result{Violation: &seqx.Violation{Key: "C21:panic", What: fmt.Sprintf("%v after %v", p, c20Hist(h))}}
+			}
+		}()
+		e, k, w := c20Run(t, h, 128)
+		defer c20Shutdown(e)
+		if k != "" {
+			return seqx.Result{Violation: &seqx.Violation{Key: "C21:" + k, What: w}}
+		}
+		// histories that never start a sync are C20's business: keep only prefixes that can still start one
+		return seqx.Result{Key: e.key(), Enabled: e.enabled(maxBlocks, true), Outcome: decLast(h)}
+	}
+	s := &seqx.Search{Exec: exec, MaxDepth: depth, Stop: r.Expired,
+		OnViolation: func(h []int, v *seqx.Violation) {
+			r.Violation(v.Key, v.What, map[string]any{"history": c20Hist(h), "ops": h})
+		}}
+	st := s.Run()
+	if !st.Complete {
+		r.Cap("deadline reached before the depth bound")
+	}
+	states, trans = st.States, st.Transitions
+	for _, h := range st.Samples {
+		r.Sample(c20Hist(h))
+	}
+	r.Cov["states"] = states
+	r.Cov["transitions"] = trans
+	r.Cov["traces_validated_against_impl"] = trans
+	r.Cov["distinct_outcomes"] = len(st.Outcomes)
+	r.Cov["outcomes"] = st.Outcomes
+	r.Cov["bounds"] = map[string]any{"depth": depth, "max_new_blocks": maxBlocks}
+	r.Cov["explanation"] = "the C20 engine model extended with start-state-sync (target = current tip) and finish-state-sync (target = any accepted block from the sync target to the tip); during sync blocks are parsed, vacuously verified (valid and invalid), accepted and rejected; after the hand-over the engine continues in normal operation; oracle after every event: health, last accepted state, exactly-once re-execution of the blocks between target and tip, re-verification of every processing block with valid ancestry, unhealthy iff a failed processing block is still unrejected"
+	r.Assumptions = []string{"the engine accepts only blocks that are really valid after the hand-over", "state sync starts once per history, at the current tip"}
 	r.Finish()
 }
 
